@@ -14,7 +14,39 @@ setup_path()
 
 GEOM_KEYS = ("paperw", "paperh", "margl", "margr", "margt", "margb", "headery", "footery")
 PRIMS = ("strat", "n", "h", "nlev", "chg", "schg", "div", "newpage", "pbrow", "pbhdr", "nrow", "hdr",
-         "foot", "src", "ptitle", "pfoot", "psrc", "title", "subline")
+         "foot", "src", "ptitle", "pfoot", "psrc", "title", "subline",
+         "font", "size", "paper", "pghf", "pagefirst", "pagelast", "bodyfirst", "bodylast", "utop", "ubot",
+         "ndata", "gpos", "relwk", "hdrw")
+
+PAPERS = {
+    "letter": {},
+    "landscape": {"orientation": "landscape"},
+    "a4": {"paper": (8.27, 11.69)},
+    "a4land": {"orientation": "landscape", "paper": (11.69, 8.27)},
+    "custom": {"paper": (7.3, 9.45), "margin": [0.9, 0.8, 1.1, 0.7, 0.6, 0.55], "col_width": 5.1},
+}
+PRIM_DEFAULTS = {"font": 1, "size": 9, "paper": "letter", "pghf": 0, "pagefirst": "double", "pagelast": "double",
+                 "bodyfirst": "single", "bodylast": "single", "utop": "", "ubot": "",
+                 "ndata": 2, "gpos": "first", "relwk": "equal", "hdrw": False}
+
+RELW = {"equal": lambda j: 1.0, "asc": lambda j: 1.0 + 0.5 * j, "mixed": lambda j: [0.2, 10.0, 1.3, 2.7, 0.9, 4.4][j % 6],
+        "tenths": lambda j: [1.7, 0.3, 2.9, 5.1, 0.7, 3.3][j % 6]}
+
+
+def opts_from_cfg(c, over=None):
+    o = dict(DEFAULT_OPTS)
+    for k in ("font", "size", "pagefirst", "pagelast", "bodyfirst", "bodylast", "utop", "ubot"):
+        o[k] = c.get(k, PRIM_DEFAULTS[k])
+    o.update(PAPERS[c.get("paper", "letter")])
+    hf = c.get("pghf", 0)
+    o["pghdr"] = bool(hf & 1)
+    o["pgftr"] = bool(hf & 2)
+    o["ndata"] = c.get("ndata", 2)
+    o["gpos"] = c.get("gpos", "first")
+    o["relwk"] = c.get("relwk", "equal")
+    o["hdr_own_widths"] = bool(c.get("hdrw", False))
+    o.update(over or {})
+    return o
 
 DEFAULT_OPTS = {
     "ndata": 2,                 # number of plain data columns
@@ -28,8 +60,9 @@ DEFAULT_OPTS = {
     "pagefirst": "double", "pagelast": "double", "bodyfirst": "single", "bodylast": "single",
     "utop": "", "ubot": "", "uleft": "single", "uright": "single",
     "pghdr": False, "pgftr": False,
-    "hdr_own_widths": False,
-    "texts": None,              # explicit cell texts [[...]] for the data columns (C02)
+    "hdr_own_widths": False, "gpos": "first", "relwk": "equal",
+    "texts": None,              # explicit cell values [[...]] for the data columns (C02)
+    "kinds": None,              # per data column: "str" | "int" | "float"
     "convert": True,
     "prefixes": False,          # also run every proper prefix (C04 PrefixStable)
 }
@@ -111,10 +144,20 @@ def build(c, o, nrows=None):
     pbcols = ["~PB%d~" % v for v in range(1, c["nlev"] + 1)] if has_pb(c) else []
     subcols = ["~SB~"] if has_sub(c) else []
     dcols = ["~D%d~" % k for k in range(1, o["ndata"] + 1)]
-    cols = o["order"] or (pbcols + subcols + dcols)
+    gcols = pbcols + subcols
+    gpos = o.get("gpos", "first")
+    if o["order"]:
+        cols = o["order"]
+    elif gpos == "last":
+        cols = dcols + gcols
+    elif gpos == "middle":
+        h2 = max(1, len(dcols) // 2)
+        cols = dcols[:h2] + gcols + dcols[h2:]
+    else:
+        cols = gcols + dcols
     removed = set(subcols) | (set(pbcols) if spanning(c) else set())
     kept = [x for x in cols if x not in removed]
-    relw_all = o["relw"] or [1.0] * len(cols)
+    relw_all = o["relw"] or [RELW[o.get("relwk", "equal")](j) for j in range(len(cols))]
     relw_kept = [w for x, w in zip(cols, relw_all) if x not in removed]
     page_kw = dict(nrow=c["nrow"], orientation=o["orientation"], page_title=c["ptitle"],
                    page_footnote=c["pfoot"], page_source=c["psrc"],
@@ -139,10 +182,15 @@ def build(c, o, nrows=None):
             if o["texts"] is not None:
                 data[x].append(o["texts"][r - 1][k])
             elif k == 0:
-                data[x].append(filler("d%03d" % r, c["h"][r - 1], colw[x], o["font"], o["size"]))
+                # heights are those of the implementation's estimator (font 1, 9pt)
+                data[x].append(filler("d%03d" % r, c["h"][r - 1], colw[x], 1, 9))
             else:
-                data[x].append("v%d.%d" % (r, k))
+                t = "v%d.%d" % (r, k)
+                data[x].append(t if _width_in(t, 1, 9) < 0.8 * colw[x] else "")
     schema = {x: pl.Utf8 for x in cols}
+    if o["texts"] is not None and o.get("kinds"):
+        for k, x in enumerate(dcols):
+            schema[x] = {"int": pl.Int64, "float": pl.Float64}.get(o["kinds"][k], pl.Utf8)
     df = pl.DataFrame({x: data[x] for x in cols}, schema=schema)
 
     body_kw = dict(border_first=o["bodyfirst"], border_last=o["bodylast"],
@@ -152,7 +200,7 @@ def build(c, o, nrows=None):
         body_kw["border_top"] = o["utop"]
     if o["ubot"]:
         body_kw["border_bottom"] = o["ubot"]
-    if o["relw"]:
+    if o["relw"] or o.get("relwk", "equal") != "equal":
         body_kw["col_rel_width"] = list(relw_all)
     if o["font"] != 1:
         body_kw["text_font"] = o["font"]
@@ -299,8 +347,12 @@ def observe(rtf_text: str, c=None):
                         prev = d["cellx"] or 0
                         wt = max(wt, _lines_lb(cell, cw))
                         est = max(est, _lines_est(cell, cw))
-                    m = _RE_TAG.match(texts[0]) if texts else None
-                    tag = int(m.group(1)) if m else 0
+                    tag = 0
+                    for t in texts:
+                        m = _RE_TAG.match(t)
+                        if m:
+                            tag = int(m.group(1))
+                            break
                     # rows carrying a tag are identified by it, others by position
                     E("data", p, r=(tag if tag else ndata), tag=tag, wt=wt, est=est, **common)
             elif b.kind == "pict":
@@ -325,9 +377,7 @@ def expected_extras(c, o, info):
     return {
         "rows": rows, "geom": geom, "landscape": o["orientation"] == "landscape",
         "pghdr": bool(o["pghdr"]), "pgftr": bool(o["pgftr"]),
-        "pagefirst": o["pagefirst"], "pagelast": o["pagelast"], "bodyfirst": o["bodyfirst"],
-        "bodylast": o["bodylast"], "utop": o["utop"], "ubot": o["ubot"], "uleft": o["uleft"],
-        "uright": o["uright"],
+        "uleft": o["uleft"], "uright": o["uright"],
         "W": _twip(info["colw_total"]),
         "relw": [int(round(w * 10)) for w in info["relw_kept"]],
         "hdrinherit": (c["hdr"] in ("default", "explicit") and not o["hdr_own_widths"]),
@@ -337,9 +387,9 @@ def expected_extras(c, o, info):
 
 def run_one(sc):
     """sc = {"id":…, "c": primitives, "o": option overrides, "pred": predicted events or None}"""
-    c = sc["c"]
-    o = dict(DEFAULT_OPTS)
-    o.update(sc.get("o") or {})
+    c = dict(PRIM_DEFAULTS)
+    c.update(sc["c"])
+    o = opts_from_cfg(c, sc.get("o"))
     rec = {"id": sc["id"], "c": {k: c[k] for k in PRIMS}, "ev": [], "outcome": "ok", "o": sc.get("o") or {}}
     try:
         doc, info = build(c, o)
@@ -370,9 +420,20 @@ def run_one(sc):
     rec["lex"] = obs["lexerrs"]
     rec["struct"] = obs["struct"]
     if sc.get("pred") is not None:
-        po = [(e["k"], e["p"], e["r"], e["lv"], e["val"]) for e in sc["pred"]]
+        # the prediction is only meaningful if every row has the height the scenario asked for
+        hs = {e["r"]: e["est"] for e in ev if e["k"] == "data"}
+        if any(hs.get(r + 1) != c["h"][r] for r in range(c["n"])) and o["texts"] is None:
+            rec["pred_valid"] = False
+    if sc.get("pred") is not None and rec.get("pred_valid", True):
+        def uni(x):
+            x = list(x)
+            return (x[0] if x and all(y == x[0] for y in x) else "mixed") if x else ""
+        trow = ("colhdr", "head", "data", "foot_t", "src_t")
+        po = [(e["k"], e["p"], e["r"], e["lv"], e["val"], uni(e["top"]) if e["k"] in trow else "",
+               uni(e["bot"]) if e["k"] in trow else "") for e in sc["pred"]]
         oo = [(e["k"], e["p"], e["r"] if e["k"] == "data" else 0, e["lv"] if e["k"] in ("head", "colhdr") else 0,
-               e["val"] if e["k"] in ("head", "subhead") else "") for e in ev]
+               e["val"] if e["k"] in ("head", "subhead") else "", uni(e["top"]) if e["k"] in trow else "",
+               uni(e["bot"]) if e["k"] in trow else "") for e in ev]
         if po != oo:
             k = 0
             while k < min(len(po), len(oo)) and po[k] == oo[k]:
@@ -383,7 +444,7 @@ def run_one(sc):
 
 def replay_text(sc):
     """Re-run one scenario and return the RTF text (for replay files)."""
-    o = dict(DEFAULT_OPTS)
-    o.update(sc.get("o") or {})
-    doc, _ = build(sc["c"], o)
+    c = dict(PRIM_DEFAULTS)
+    c.update(sc["c"])
+    doc, _ = build(c, opts_from_cfg(c, sc.get("o")))
     return doc.rtf_encode()
